@@ -270,7 +270,7 @@ def run_mon_key(m):
                    ("forwarded request differs", "loop:request-altered"), ("heartbeat had an effect", "loop:heartbeat-unauthenticated-effect"),
                    ("heartbeat envelope produced", "loop:heartbeat-channel-output"), ("accepted heartbeat of signer", "loop:heartbeat-stored-elsewhere"),
                    ("local observation request", "loop:local-request-delivery"), ("cap:", "loop:cap"),
-                   ("after G's own heartbeat", "loop:own-heartbeat-table"), ("G's own heartbeat produced", "loop:own-heartbeat-output")):
+                   ("loop-exit:", "loop:run-exited"), ("after G's own heartbeat", "loop:own-heartbeat-table"), ("G's own heartbeat produced", "loop:own-heartbeat-output")):
         if m.startswith(pre):
             return k
     return "loop:" + m[:40]
@@ -293,6 +293,9 @@ def loop_half(ctx, st):
             # the harness already retried the whole scenario once: a delivery deadline (>= 25 s each) is a machinery problem, never a violation
             ctx.problem("machinery", "real-loop scenario %s did not complete (second attempt)" % h["id"],
                         "%s%s; first attempt: %s" % (h.get("timeout") or "", h.get("fatal") or "", (h.get("extra") or {}).get("first_attempt")))
+            continue
+        if h.get("exited") and not any(m.startswith("loop-exit") for s_ in h["steps"] for m in (s_.get("mon") or [])):
+            ctx.problem("machinery", "p2p.Run exited outside the dispatch of an envelope (history %s)" % h["id"], h.get("exited"))
             continue
         good.append(h)
     # ---- monitors (evaluated in Go with direct crypto and hard-coded prefixes on what the real loop did)
@@ -325,12 +328,13 @@ def loop_half(ctx, st):
     # ---- model vs the real loop, inside Coq
     info = (st.get("p2p_verify") or {}).get("info") or {}
     pre = (info["hb_pre_hex"], info["req_pre_hex"]) if ("hb_pre_hex" in info and "req_pre_hex" in info) else None
-    if good:
-        # histories are split in chunks? no: the model state threads through; one file per history
-        texts = [RUN_HDR + "Definition cases : list p2run := [%s].\nDefinition M := Eval vm_compute in map check_p2run cases.\nPrint M.\n" % grun(h, pre) for h in good]
+    cmpable = [h for h in good if not h.get("exited")]   # a history cut short by an exit of Run is judged by the monitor only
+    if cmpable:
+        # the model state threads through a history: one generated file per history
+        texts = [RUN_HDR + "Definition cases : list p2run := [%s].\nDefinition M := Eval vm_compute in map check_p2run cases.\nPrint M.\n" % grun(h, pre) for h in cmpable]
         res = core.coq_eval_many(ctx, "cases_C03r", texts, timeout=1500)
         nbad = 0
-        for h, (ok, o) in zip(good, res):
+        for h, (ok, o) in zip(cmpable, res):
             m = core.parse_print(o, "M")
             vals = core.zlist(m) if (ok and m is not None) else None
             if not vals or len(vals) != 1:
@@ -345,7 +349,7 @@ def loop_half(ctx, st):
                     ctx.problem("correspondence", "model P2PVerify.loop_run differs from the real p2p.Run dispatch loop",
                                 "history %d step %d op=%s kind=%s note=%s impl outs=%s entries=%s" % (h["id"], stp, op.get("k"), op.get("kind"), op.get("note"), s.get("outs"), s.get("ne")),
                                 concrete=False, replay=describe_run(h, stp))
-        ctx.cov["loop_histories_validated_against_impl"] = len(good)
+        ctx.cov["loop_histories_validated_against_impl"] = len(cmpable)
         ctx.cov["loop_mismatches"] = nbad
     # ---- coverage
     kinds, eff = {}, {}
